@@ -108,6 +108,53 @@ func (c *Ctx) orderTaintIn(f *ssa.Function) []taintSrc {
 					out = append(out, taintSrc{call, "append of map-range elements", call.Pos()})
 				}
 			}
+			// a local closure called once per map entry that appends its argument to a captured
+			// slice (visit(node) { ...; stack = append(stack, node) }): the captured slice is in map order
+			if g := calleeFn(&call.Call); g != nil && g.Parent() == f {
+				anyElem := false
+				for _, a := range call.Call.Args {
+					if fromMapElem(a) {
+						anyElem = true
+					}
+				}
+				if anyElem {
+					for _, gb := range g.Blocks {
+						for _, gi := range gb.Instrs {
+							st, ok := gi.(*ssa.Store)
+							if !ok {
+								continue
+							}
+							fv, ok := st.Addr.(*ssa.FreeVar)
+							if !ok {
+								continue
+							}
+							ap, ok := st.Val.(*ssa.Call)
+							if !ok {
+								continue
+							}
+							if bi, ok := ap.Call.Value.(*ssa.Builtin); !ok || bi.Name() != "append" || len(ap.Call.Args) != 2 {
+								continue
+							}
+							fromParam := false
+							for _, el := range variadicElems(ap.Call.Args[1]) {
+								if flowsFrom(el, func(x ssa.Value) bool { _, isP := x.(*ssa.Parameter); return isP }) {
+									fromParam = true
+								}
+							}
+							if !fromParam {
+								continue
+							}
+							if al := funcVarAlloc(fv); al != nil && al.Referrers() != nil {
+								for _, r := range *al.Referrers() {
+									if ld, ok := r.(*ssa.UnOp); ok && ld.Op == token.MUL && ld.Parent() == f && canReach(call, ld) {
+										out = append(out, taintSrc{ld, "slice filled by a closure called per map entry", call.Pos()})
+									}
+								}
+							}
+						}
+					}
+				}
+			}
 			// slices.Collect(maps.Keys(m)) / slices.AppendSeq(x, maps.Keys(m))
 			fo := calleeObj(&call.Call)
 			if fo != nil && fo.Pkg() != nil && fo.Pkg().Path() == "slices" {
